@@ -1,6 +1,7 @@
 import CprocVerif.Model.Init
 import CprocVerif.Spec.Image
 import CprocVerif.Spec.InitRef
+import CprocVerif.Spec.InitClass
 
 /-! Line-protocol driver for property C07 (model of `init.c` / `qbe.c:emitdata`, and the spec).
 
@@ -23,9 +24,12 @@ Ops
 * `parse <inc> T N`  → `ok <size> <anon> <hyp> | <writes> | <cursor list> | <head list>` (hyp: the hypotheses of `emitdata_image_ev` hold) / `error <msg>` / `undef <msg>`
 * `full <inc> T N`   → `ok <size> | <image>` / `error …` / `undef …` / `emit-error`
 * `spec <inc> T N`   → `ok <size> <nswitch> <nreinit> | <writes> | <image>` / `error <msg>`
+* `class <inc> T N`  → which refinement theorem of `Props/C07.lean` covers the pair: `braced` / `elided`
+                      (`parseinit_refines_ref`: no designators; fully braced, resp. with brace elision) or
+                      `none:<first failing hypothesis>` (`inc`, `tywf`, `desig`, `top`)
 -/
 
-open CprocVerif.Init CprocVerif.Image CprocVerif.InitRef
+open CprocVerif.Init CprocVerif.Image CprocVerif.InitRef CprocVerif.InitSim
 
 abbrev P := StateT (List Char) Option
 
@@ -226,6 +230,16 @@ def step (line : String) : String :=
       match ref ty inc ini with
       | .ok r => s!"ok {r.size} {r.nswitch} {r.nreinit} | " ++ showInits r.writes ++ " | " ++ showImage (image r.size r.writes)
       | .error e => "error " ++ e
+    | none => "bad-op"
+  | ["class", inc, t, n] =>
+    match parseTyIni inc t n with
+    | some (inc, ty, ini) =>
+      if inc then "none:inc"
+      else if !tyWf ty then "none:tywf"
+      else if !noDesig ini then "none:desig"
+      else if !topOK ty ini then "none:top"
+      else if refClass ty inc ini then (if fullyBraced ty ini then "braced" else "elided")
+      else "none:other"
     | none => "bad-op"
   | _ => "bad-op"
 
